@@ -490,6 +490,23 @@ class FluidPropertyPolynominal(FluidProperty):
     """
     Creates Property with a polynominal course.
     """
+    # the numpy polynomials cannot be written to JSON; they are rebuilt from the coefficients
+    json_excludes = JSONSerializableClass.json_excludes + ["prop_getter", "prop_int_getter"]
+
+    def to_dict(self):
+        d = super(FluidPropertyPolynominal, self).to_dict()
+        d.update({"coefficients": [float(c) for c in self.prop_getter.coeffs]})
+        return d
+
+    @classmethod
+    def from_dict(cls, d):
+        obj = JSONSerializableClass.__new__(cls)
+        d = dict(d)
+        coefficients = d.pop("coefficients")
+        obj.__dict__.update(d)
+        obj.prop_getter = np.poly1d(coefficients)
+        obj.prop_int_getter = np.polyint(obj.prop_getter)
+        return obj
 
     def __init__(self, x_values, y_values, polynominal_degree):
         """
